@@ -49,13 +49,16 @@ type Gen struct {
 	// SuffixNames: the components include names ending in the pipeline suffix
 	SuffixNames bool
 	suffixed    string
-	Weights     map[string]int
-	MaxSize     int
-	RS          int
-	ops         []string
-	Avoid       func(s Step, mr *MRunner) string // guard name if the step must be steered away
-	Excluded    map[string]int
-	Markers     bool // C09: every name, content, owner and timestamp carries a marker
+	// Repeat: one draw in Repeat re-issues an earlier path-level call of the case verbatim (0 = never)
+	Repeat   int
+	past     []Step
+	Weights  map[string]int
+	MaxSize  int
+	RS       int
+	ops      []string
+	Avoid    func(s Step, mr *MRunner) string // guard name if the step must be steered away
+	Excluded map[string]int
+	Markers  bool // C09: every name, content, owner and timestamp carries a marker
 }
 
 // Marker values used when Gen.Markers is set (DESIGN §4/C09).
@@ -66,7 +69,7 @@ var (
 )
 
 func NewGen(t *rapid.T, weights map[string]int, universe []string, ncomps int, rs int) *Gen {
-	g := &Gen{Weights: weights, RS: rs, MaxSize: 300 << 10, Excluded: map[string]int{}}
+	g := &Gen{Weights: weights, RS: rs, MaxSize: 300 << 10, Excluded: map[string]int{}, Repeat: 12}
 	idx := rapid.SliceOfNDistinct(rapid.IntRange(0, len(universe)-1), ncomps, ncomps, rapid.ID[int]).Draw(t, "comps")
 	for _, i := range idx {
 		g.Comps = append(g.Comps, universe[i])
@@ -111,6 +114,21 @@ func (g *Gen) existing(t *rapid.T, m *model.FS, kind string) (string, bool) {
 		return "", false
 	}
 	return pick(t, c, "existing"), true
+}
+
+// populated picks a directory that has at least one entry below it (recursive calls have
+// something to recurse into); ok=false if there is none.
+func (g *Gen) populated(t *rapid.T, m *model.FS) (string, bool) {
+	var c []string
+	for _, p := range m.Paths() {
+		if p != "/" && m.Nodes[p].Kind == "dir" && len(m.Children(p)) > 0 {
+			c = append(c, p)
+		}
+	}
+	if len(c) == 0 {
+		return "", false
+	}
+	return pick(t, c, "populated"), true
 }
 
 func (g *Gen) dirs(m *model.FS) []string {
@@ -229,7 +247,30 @@ func usedSlots(mr *MRunner) []int {
 }
 
 // Draw one step. Steps that a guard steers away are redrawn (and counted).
+// remember keeps the path-level calls of the case so that one of them can be issued again
+// later (a call that is repeated after the state around it has changed).
+func (g *Gen) remember(s Step) {
+	switch s.Op {
+	case "mkdir", "mkdirall", "remove", "removeall", "rename", "chmod", "chown", "chtimes", "stat", "list", "symlink":
+		if len(g.past) < 64 {
+			g.past = append(g.past, s)
+		}
+	}
+}
+
 func (g *Gen) Draw(t *rapid.T, mr *MRunner) Step {
+	if len(g.past) > 0 && g.Repeat > 0 && rapid.IntRange(0, g.Repeat-1).Draw(t, "repeat-earlier-call") == 0 {
+		s := g.past[rapid.IntRange(0, len(g.past)-1).Draw(t, "which")]
+		if g.Avoid == nil || g.Avoid(s, mr) == "" {
+			return s
+		}
+	}
+	s := g.drawFresh(t, mr)
+	g.remember(s)
+	return s
+}
+
+func (g *Gen) drawFresh(t *rapid.T, mr *MRunner) Step {
 	for tries := 0; tries < 40; tries++ {
 		s := g.draw1(t, mr)
 		if s.Op == "" {
@@ -306,6 +347,11 @@ func (g *Gen) draw1(t *rapid.T, mr *MRunner) Step {
 		}
 	case "remove", "removeall", "stat", "chmod", "chown", "chtimes", "arch_delete", "arch_restore":
 		s.Path = g.anyPath(t, m)
+		if op == "removeall" || op == "arch_delete" {
+			if p, ok := g.populated(t, m); ok && rapid.IntRange(0, 2).Draw(t, "populated-operand") == 0 {
+				s.Path = p
+			}
+		}
 		if (op == "chmod" || op == "chown" || op == "chtimes" || op == "stat") && rapid.IntRange(0, 11).Draw(t, "root-operand") == 0 {
 			s.Path = "/" // the root directory is an entry with attributes of its own
 		}
@@ -333,6 +379,9 @@ func (g *Gen) draw1(t *rapid.T, mr *MRunner) Step {
 			s.Path = p
 		} else {
 			s.Path = g.anyPath(t, m)
+		}
+		if p, ok := g.populated(t, m); ok && rapid.IntRange(0, 3).Draw(t, "populated-operand") == 0 {
+			s.Path = p
 		}
 		s.Path2 = g.anyPath(t, m)
 		if g.SuffixNames && rapid.Bool().Draw(t, "to-suffix-name") {
